@@ -31,7 +31,7 @@ def check(ctx: Ctx, col: Collector, tier: str) -> None:
     repo = ctx.repo
     col.spec("C01.LIBAPI", "no attribute, call or comparison in the tool's code is rejected by the installed libraries' own type information",
              "mypy (the repository's own dependency) diagnostics restricted to repository files + inventory of silenced diagnostics", floor=2)
-    col.spec("C01.DISPATCH", "no dispatcher over mypy node / type classes can receive a class it raises on", "partitioned abstract interpretation: failing input partition vs. class sets at the call sites", floor=16)
+    col.spec("C01.DISPATCH", "no dispatcher over mypy node / type classes can receive a class it raises on", "partitioned abstract interpretation: failing input partition vs. class sets at the call sites", floor=17)
     col.spec("C01.STACK", "every handler accepts every declaration the walker can put below it; pushes and pops balance", "stack-shape analysis of the enter_/leave_ handlers", floor=11)
     col.spec("C01.TABLE", "closed tables cannot miss: every type kind the pipeline can produce is rendered; literal dict lookups have covered keys", "producer set vs. branches; key domains", floor=16)
     col.spec("C01.RAISE-INVENTORY", "every raise/assert reachable from the CLI is the documented rejection, provably unreachable, or guarded by the invariant named next to it",
@@ -284,6 +284,29 @@ def check(ctx: Ctx, col: Collector, tier: str) -> None:
                     f"a type variable whose variance is {vname} (mypy.nodes.{vname} = {variances[vname]}) in a Sequence/Collection/Generic base raises {bad[0][1]} in mypy_variance_parser: the run aborts")
         else:
             col.ok("C01.DISPATCH", key, repo.loc(VISITOR, cfi.node), f"type variables of variance {vname} are converted")
+    # (f2) superclass names: an expression without fullname must not put an empty name into the model
+    cit2 = ctx.interp(cfi)
+    nd = Obj("ClassDef", (("name", Sym("node.name")), ("fullname", Sym("node.fullname")), ("removed_base_type_exprs", ListV(())), ("base_type_exprs", Sym("node.base_type_exprs")),
+                          ("defs", Obj("Block", (("body", ListV(())),)))))
+    cit2.run_function(cfi, {"self": Sym("self"), "node": nd}, visitor_state((parent_obj("Module"),)))
+    sl = [x for x in find_loops(cit2, cfi, lambda v: sym_is(v, "node.base_type_exprs")) if any(isinstance(n, ast.Call) and ast.unparse(n.func) == "superclasses.append" for n in ast.walk(x[0]))]
+    if len(sl) != 1:
+        raise AnalysisError("superclass loop of enter_classdef not found")
+    node, _, _, entry = sl[0]
+    empties = []
+    for cls in ("NameExpr", "MemberExpr"):
+        el = Obj(cls, (("fullname", Const("")), ("name", Sym("sc.name")), ("expr", Sym("sc.expr")), ("node", Const(None))))
+        for o in run_body(cit2, node, entry.clone(), el):
+            for e in new_effects(o, entry):
+                if e.kind == "mutate" and e.target == "superclasses.append" and e.args and e.args[0] == Const(""):
+                    empties.append(cls)
+    key = f"{VISITOR}::{VCLS}.enter_classdef::superclass-without-fullname"
+    if empties:
+        col.bad("C01.DISPATCH", key, repo.loc(VISITOR, node), f"an empty superclass name is recorded for {sorted(set(empties))}",
+                f"a base class expression without a resolved fullname ({sorted(set(empties))[0]}, e.g. `class A(otherlib.Thing)` with otherlib not installed) is recorded as the empty name; "
+                f"the stub generator raises ValueError('Type has no import source') for it")
+    else:
+        col.ok("C01.DISPATCH", key, repo.loc(VISITOR, node), "a base class expression whose fullname is empty is named by its dotted expression or skipped; the empty name is never recorded")
     # (g) alias table
     gfi = repo.function(GETAPI, "_get_aliases")
     col.touched(gfi)
@@ -574,8 +597,7 @@ RAISE_CLASSES = {
     (VISITOR, f"{VCLS}.leave_assignmentstmt", "AssertionError"): (2, "invariant: push/pop balance; assignments are visited below Class / Enum / constructor only (C01.STACK)"),
     (VISITOR, f"{VCLS}.leave_assignmentstmt", "TypeError"): (2, "invariant: the grandparent of a constructor is a Class; the pushed list holds Attribute / EnumInstance only (C03.REGISTER)"),
     (VISITOR, f"{VCLS}._is_attribute_already_defined", "TypeError"): (1, "invariant: called only below a Class or a constructor of a Class (enter_assignmentstmt guards, C01.STACK)"),
-    (VISITOR, f"{VCLS}._create_attribute", "AttributeError"): (3, "decided by C01.DISPATCH (targets): only NameExpr / MemberExpr reach it, both carry name and node (library model); "
-                                                                  "a declared list type comes with its unanalysed annotation (mypy sets both from the same annotation)"),
+    (VISITOR, f"{VCLS}._create_attribute", "AttributeError"): (2, "decided by C01.DISPATCH (targets): only NameExpr / MemberExpr reach it, both carry name and node (library model)"),
     (VISITOR, f"{VCLS}._create_attribute", "AssertionError"): (1, "invariant: attributes are created below a Class or its constructor only (C01.STACK)"),
     (VISITOR, f"{VCLS}._parse_parameter_data", "ValueError"): (1, "library: mypy gives every argument variable of an analysed function a type (Any when unannotated)"),
     (VISITOR, f"{VCLS}._parse_parameter_data", "TypeError"): (1, "invariant: the default-value helper returns str/int/float/bool/None/UnknownValue (C06.LITERAL-VALUE)"),
@@ -589,7 +611,8 @@ RAISE_CLASSES = {
     (WALKER, "ASTWalker.__get_callbacks", "AttributeError"): (1, "library: ClassDef declares base_type_exprs (library model)"),
     (GETAPI, "_get_mypy_asts", "ValueError"): (1, "library: mypy keeps the tree of every module of the build when preserve_asts is set"),
     (GEN, f"{GENCLS}._create_type_string", "ValueError"): (1, "decided by C01.TABLE (producer kinds)"),
-    (GEN, f"{GENCLS}._add_to_imports", "ValueError"): (1, "library: qualified names of types come from mypy fullnames / griffe canonical paths and are not empty"),
+    (GEN, f"{GENCLS}._add_to_imports", "ValueError"): (1, "superclass names: decided by C01.DISPATCH (superclass-without-fullname); type names: library - qualified names of types come from "
+                                                        "mypy TypeInfo fullnames / griffe canonical paths and are not empty, unresolved ones become UnknownType in mypy_type_to_abstract_type"),
     (DOCPARSER, "DocstringParser.get_class_documentation", "TypeError"): (1, "invariant: _get_griffe_node returns None only for a part named __init__ below a class; class lookups end in the class name"),
     (DOCPARSER, "DocstringParser.get_parameter_documentation", "TypeError"): (1, "library: griffe's parameters section holds DocstringParameter entries"),
     (DOCPARSER, "DocstringParser._get_griffe_node", "ValueError"): (1, "library: every module mypy analysed is a member of the package tree griffe loaded from the same directory"),
@@ -799,6 +822,17 @@ def descends(repo, fi: FuncInfo, call: ast.Call, params: list[str]) -> str | Non
             return f"`{ast.unparse(e)[:40]}` is {derived[r]}"
         return None
 
+    # a parameter that is reassigned from something that is not one of its own components stops being "the argument"
+    params = list(params)
+    for x in ast.walk(fi.node):
+        if isinstance(x, ast.Assign):
+            for t in x.targets:
+                if isinstance(t, ast.Name) and t.id in params:
+                    r, st = chain(x.value)
+                    if not (r == t.id and st >= 1):
+                        params.remove(t.id)
+        elif isinstance(x, (ast.AugAssign, ast.AnnAssign)) and isinstance(x.target, ast.Name) and x.target.id in params and getattr(x, "value", None) is not None:
+            params.remove(x.target.id)
     # pessimistic fixpoint: a local is derived when every assignment to it is a component (empty literals are neutral)
     assigns: dict[str, list[ast.expr]] = {}
     loops: dict[str, list[ast.expr]] = {}
